@@ -468,6 +468,67 @@ def job_framechop(j, seed):
     return {'obligations': obs, 'candidates': cands, 'paths': len(paths)}
 
 
+def job_bounds(j, seed):
+    """Frame.bounds() is the bounding box of ALL subframes: subframes are listed in no particular order and may overlap, so
+    the smallest start (largest end) may belong to any of them.  Vertices of one subframe are sorted by assumption
+    ('regular' subframes, which is what the cascade produces); their order across subframes is free."""
+    nsub = j
+    from symex import core as C
+    from .symutil import fresh_run
+
+    sc, cc = _load()
+    fresh_run()
+    obs, cands = [], []
+    tag = f'bounds[{nsub} subframes]'
+    case = {'kind': 'bounds', 'nsub': nsub}
+    nv = 3
+    ts = [[C.sym_var(f's{q}t{i}') for i in range(nv)] for q in range(nsub)]
+    ws = [[C.sym_var(f's{q}w{i}', sign='+') for i in range(nv)] for q in range(nsub)]
+    for q in range(nsub):
+        for i in range(nv - 1):
+            C.CTX.assume(ts[q][i] < ts[q][i + 1])
+            C.CTX.assume(ws[q][i] < ws[q][i + 1])
+    d0 = C.sym_var('d0', sign='0+')
+    frame = cc.Frame(distance=sc.scalar(d0, unit='m'), subframes=[cc.Subframe(time=_var(ts[q], 'vertex', 's'), wavelength=_var(ws[q], 'vertex', 'angstrom')) for q in range(nsub)])
+    C.CTX.fork_timeout_ms = 3000
+
+    def run():
+        b = frame.bounds()
+        return list(b['time'].values), list(b['wavelength'].values), b['time'].unit, b['wavelength'].unit
+
+    paths = C.explore(run, max_paths=400)
+    nret = 0
+    for k, p in enumerate(paths):
+        P = f'path{k}'
+        if p.inconclusive:
+            obs.append({'name': f'{tag}:{P}', 'status': 'inconclusive', 'detail': p.inconclusive[:200], 't': 0})
+            continue
+        if p.exc is not None:
+            obs.append({'name': f'{tag}:{P}:raises', 'status': 'violated', 'detail': repr(p.exc)[:200], 't': 0})
+            cands.append(('C11:bounds:raises', case, repr(p.exc)[:100]))
+            continue
+        nret += 1
+        tb, wb, ut, uw = p.value
+        allt = [t for q in range(nsub) for t in ts[q]]
+        allw = [w for q in range(nsub) for w in ws[q]]
+        goals = [
+            ('time bounds contain every vertex of every subframe', C.all_of([tb[0] <= t for t in allt] + [t <= tb[1] for t in allt])),
+            ('time bounds are attained', C.any_of([tb[0] == t for t in allt]) & C.any_of([tb[1] == t for t in allt])),
+            ('wavelength bounds contain every vertex of every subframe', C.all_of([wb[0] <= w for w in allw] + [w <= wb[1] for w in allw])),
+            ('wavelength bounds are attained', C.any_of([wb[0] == w for w in allw]) & C.any_of([wb[1] == w for w in allw])),
+        ]
+        for nm, g in goals:
+            ob = C.prove(f'{tag}:{P}:{nm}', g, pc=p.pc, timeout_ms=20000)
+            obs.append(ob_dict(ob))
+            if ob.status == 'violated':
+                cands.append(('C11:bounds', {**case, 'model': {k2: float(v) for k2, v in (ob.model or {}).items()}}, nm))
+        ob = C.prove(f'{tag}:{P}:units of the bounds are those of the subframes', C.B.const(ut == frame.subframes[0].time.unit and uw == frame.subframes[0].wavelength.unit), pc=p.pc)
+        obs.append(ob_dict(ob))
+    ob = C.prove(f'{tag}:some path returns', C.B.const(nret >= 1))
+    obs.append(ob_dict(ob))
+    return {'obligations': obs, 'candidates': cands, 'paths': len(paths)}
+
+
 def job_getitem(j, seed):
     """frames[distance]: the frame propagated to the requested distance is the LAST frame of the cascade that is not beyond
     it - with several choppers at the same distance that is the one cut by all of them - for symbolic, non-decreasing
@@ -645,7 +706,7 @@ def run(chk):
     sc, cc = _load()
     from symex import loader
 
-    chk.functions = loader.describe_exprs(['cc.propagate_times', 'cc.wavelength_to_inverse_velocity', 'cc.Subframe.__init__', 'cc.Subframe.propagate_by', 'cc.Subframe.is_regular', 'cc.Frame.propagate_to', 'cc.Frame.chop', 'cc.Frame.subbounds', 'cc.FrameSequence.from_source_pulse', 'cc.FrameSequence.chop', 'cc._chop'], {**globals(), **locals()})
+    chk.functions = loader.describe_exprs(['cc.propagate_times', 'cc.wavelength_to_inverse_velocity', 'cc.Subframe.__init__', 'cc.Subframe.propagate_by', 'cc.Subframe.is_regular', 'cc.Frame.propagate_to', 'cc.Frame.chop', 'cc.Frame.subbounds', 'cc.Frame.bounds', 'cc.FrameSequence.from_source_pulse', 'cc.FrameSequence.chop', 'cc._chop'], {**globals(), **locals()})
     # the bit-precise lemma first and alone: its (single) query is sensitive to CPU contention
     run_jobs(chk, job_fp, [0])
     ns = [3, 4, 5] if chk.tier == 'quick' else [3, 4, 5, 6]
@@ -656,6 +717,7 @@ def run(chk):
     run_jobs(chk, job_getitem, [2, 3] if chk.tier == 'quick' else [2, 3, 4])
     run_jobs(chk, job_framechop, [(1, 2), (2, 2)] if chk.tier == 'quick' else [(1, 2), (2, 2), (1, 3), (2, 3)])
     run_jobs(chk, job_regular, ['is_regular', 'subbounds'])
+    run_jobs(chk, job_bounds, [2] if chk.tier == 'quick' else [2, 3])
     chk.bounds = {'polygon vertices': ns, 'clip': 'one clipping step from an arbitrary polygon, all inside patterns (inductive step)',
                   'regularity': 'pulse rectangle + one chopper window at a symbolic distance (all clip patterns)',
                   'floating point': 'Float64, a in [1e-3,1e3], times in [0,10], one horizontal edge'}
@@ -825,6 +887,29 @@ def replay_real(case):
                 if not np.allclose(got, exp, rtol=1e-12, atol=1e-15):
                     bad.append(f'frame at {D0} m propagated to {dists} m: arrival times at {Dk} m are {got.tolist()}, expected {exp.tolist()}')
                     break
+    elif kind == 'bounds':
+        from fractions import Fraction as F
+        nsub = case['nsub']
+        model = case.get('model') or {}
+        for trial in range(200):
+            subs, at, aw = [], [], []
+            for q in range(nsub):
+                if trial == 0 and all(f's{q}t{i}' in model and f's{q}w{i}' in model for i in range(3)):
+                    t = np.array([float(F(model[f's{q}t{i}'])) for i in range(3)])
+                    w = np.array([float(F(model[f's{q}w{i}'])) for i in range(3)])
+                else:
+                    # overlapping subframes in arbitrary listing order
+                    t = np.sort(rng.uniform(0, 10, size=3))
+                    w = np.sort(rng.uniform(0.1, 10, size=3))
+                at += list(t)
+                aw += list(w)
+                subs.append(cc.Subframe(time=sc.array(dims=['vertex'], values=t, unit='s'), wavelength=sc.array(dims=['vertex'], values=w, unit='angstrom')))
+            b = cc.Frame(distance=sc.scalar(1.0, unit='m'), subframes=subs).bounds()
+            got = (b['time'].values.tolist(), b['wavelength'].values.tolist())
+            exp = ([min(at), max(at)], [min(aw), max(aw)])
+            if got != exp:
+                bad.append(f'bounds() of subframes with times {at} s, wavelengths {aw} A: {got}, bounding box {exp}')
+                break
     elif kind == 'order':
         seq = cc.FrameSequence.from_source_pulse(sc.scalar(0.0, unit='ms'), sc.scalar(3.0, unit='ms'), sc.scalar(1.0, unit='angstrom'), sc.scalar(10.0, unit='angstrom'))
         c1 = cc.Chopper(distance=sc.scalar(5.0, unit='m'), time_open=sc.array(dims=['slit'], values=[0.002], unit='s'), time_close=sc.array(dims=['slit'], values=[0.01], unit='s'))
